@@ -116,9 +116,10 @@ def sym_int(name, width):
     return AInt(None, [(name, k) for k in range(width)])
 
 class ABytes:
-    __slots__ = ('items',)
-    def __init__(self, items):
+    __slots__ = ('items', 'mutable')
+    def __init__(self, items, mutable=False):
         self.items = list(items)
+        self.mutable = mutable          # bytearray
     def __len__(self):
         return len(self.items)
     def __repr__(self):
@@ -153,6 +154,38 @@ class AStr:
 class AObj:
     def __init__(self, **attrs):
         self.attrs = dict(attrs)
+
+class AFunc:
+    """a function value: a def of the interpreted module (or a nested def with the environment it closes over)"""
+    __slots__ = ('fn', 'closure')
+    def __init__(self, fn, closure=None):
+        self.fn = fn
+        self.closure = closure
+    def __repr__(self):
+        return f"<function {self.fn.name}>"
+
+class ADictOf:
+    """vars(obj) / obj.__dict__: the attribute dictionary of an abstract object (identity matters, contents are the object's attributes)"""
+    __slots__ = ('obj',)
+    def __init__(self, obj):
+        self.obj = obj
+    def __repr__(self):
+        return f"<__dict__ of {self.obj!r}>"
+
+class ModuleEnv:
+    """module-level names for the interpreter: functions become AFunc, simple assignments are evaluated on first use, anything else is opaque"""
+    def __init__(self, tree):
+        self.funcs = {n.name: n for n in tree.body if isinstance(n, (ast.FunctionDef, ast.AsyncFunctionDef))}
+        self.classes = {n.name: n for n in tree.body if isinstance(n, ast.ClassDef)}
+        self.assigns = {}
+        for n in tree.body:
+            if isinstance(n, ast.Assign) and len(n.targets) == 1 and isinstance(n.targets[0], ast.Name):
+                self.assigns[n.targets[0].id] = n.value
+            elif isinstance(n, ast.AnnAssign) and isinstance(n.target, ast.Name) and n.value is not None:
+                self.assigns[n.target.id] = n.value
+        self.cache = {}
+
+_TYPE_NAMES = {'bytes', 'bytearray', 'int', 'str', 'float', 'bool', 'list', 'dict', 'tuple', 'set', 'NoneType'}
 
 class ReturnSignal(Exception):
     def __init__(self, value):
@@ -217,7 +250,8 @@ def norm_byte(vec):
     return ('b', tuple(v))
 
 class Interp:
-    def __init__(self, methods=None, hook=None, skip=None, max_steps=400000, classes=None, functions=None, cmp_oracle=None):
+    def __init__(self, methods=None, hook=None, skip=None, max_steps=400000, classes=None, functions=None, cmp_oracle=None, module=None):
+        self.module = module                 # ModuleEnv: names not bound locally are looked up here
         self.functions = functions or {}     # module-level function name -> FunctionDef: interpreted when called by name
         self.cmp_oracle = cmp_oracle         # cmp_oracle(op, a, b, node) -> bool for a comparison of sums the domain cannot decide
         self.classes = classes or {}        # class name -> ClassDef: instantiated by interpreting __init__
@@ -229,8 +263,8 @@ class Interp:
         self.raised = None
 
     # ------------------------------------------------------------ function call
-    def call_function(self, fn, args, kwargs=None):
-        env = {}
+    def call_function(self, fn, args, kwargs=None, closure=None):
+        env = dict(closure) if closure else {}
         params = [a.arg for a in fn.args.args]
         for p, a in zip(params, args):
             env[p] = a
@@ -332,6 +366,8 @@ class Interp:
             raise _Break()
         elif isinstance(s, ast.Continue):
             raise _Continue()
+        elif isinstance(s, ast.FunctionDef):
+            env[s.name] = AFunc(s, env)
         elif isinstance(s, ast.Pass):
             return
         elif isinstance(s, ast.Delete):
@@ -446,6 +482,41 @@ class Interp:
             return False          # `if logger.isEnabledFor(..)`: interpreted with that logging switched off
         raise Unknown(f"branch on an abstract value {v!r} at line {getattr(node, 'lineno', 0)}")
 
+    def isinstance_(self, x, t, node):
+        def names(t_):
+            if isinstance(t_, tuple):
+                out = []
+                for y in t_:
+                    out.extend(names(y))
+                return out
+            if isinstance(t_, AOpaque):
+                return [t_.what.split('.')[-1]]
+            raise Unknown(f"isinstance against {t_!r} at line {getattr(node, 'lineno', 0)}")
+        ts = names(t)
+        if isinstance(x, ABytes):
+            mine = {'bytearray'} if getattr(x, 'mutable', False) else {'bytes'}
+        elif isinstance(x, bool):
+            mine = {'bool', 'int'}
+        elif isinstance(x, AInt):
+            mine = {'int'}
+        elif isinstance(x, AStr):
+            mine = {'str'}
+        elif isinstance(x, AFloat):
+            mine = {'float'}
+        elif isinstance(x, AList):
+            mine = {'list'}
+        elif isinstance(x, ADict):
+            mine = {'dict'}
+        elif isinstance(x, tuple):
+            mine = {'tuple'}
+        elif x is None:
+            mine = {'NoneType'}
+        elif isinstance(x, AObj) and isinstance(x.attrs.get('__class__'), str):
+            mine = {x.attrs['__class__']} | set(x.attrs.get('__bases__', ()))
+        else:
+            raise Unknown(f"isinstance of {x!r} at line {getattr(node, 'lineno', 0)}")
+        return any(t_ in mine for t_ in ts)
+
     def byte_to_int(self, b):
         if b[0] == 'c':
             return AInt(b[1])
@@ -488,12 +559,23 @@ class Interp:
                 return env[e.id]
             if e.id in ('True', 'False', 'None'):
                 return {'True': True, 'False': False, 'None': None}[e.id]
+            m = self.module
+            if m is not None:
+                if e.id in m.funcs:
+                    return AFunc(m.funcs[e.id])
+                if e.id in m.assigns:
+                    if e.id not in m.cache:
+                        m.cache[e.id] = AOpaque(e.id)          # cycles
+                        m.cache[e.id] = self.expr(m.assigns[e.id], {})
+                    return m.cache[e.id]
             return AOpaque(e.id)
         if isinstance(e, ast.Attribute):
             o = self.expr(e.value, env)
             if isinstance(o, AObj):
                 if e.attr in o.attrs:
                     return o.attrs[e.attr]
+                if e.attr == '__dict__':
+                    return ADictOf(o)
                 raise Unknown(f"attribute {e.attr} not modelled (line {e.lineno})")
             if isinstance(o, AOpaque):
                 return AOpaque(f"{o.what}.{e.attr}")
@@ -554,7 +636,23 @@ class Interp:
                         spec = sp.literal() if isinstance(sp, AStr) else ''
                     pieces.extend(self.format(val, spec or ''))
             return AStr(pieces)
-        if isinstance(e, (ast.GeneratorExp, ast.ListComp)):
+        if isinstance(e, ast.DictComp):
+            out = {}
+            def recd(i, env2):
+                if i == len(e.generators):
+                    out[self.key_of(self.expr(e.key, env2), e)] = self.expr(e.value, env2)
+                    return
+                g = e.generators[i]
+                for x in self.iterate(self.expr(g.iter, env2), e):
+                    env3 = dict(env2)
+                    self.assign(g.target, x, env3)
+                    if all(self.truth(self.expr(c, env3), e) for c in g.ifs):
+                        recd(i + 1, env3)
+            recd(0, env)
+            return ADict(out)
+        if isinstance(e, ast.Set):
+            return AList([self.expr(x, env) for x in e.elts])
+        if isinstance(e, (ast.GeneratorExp, ast.ListComp, ast.SetComp)):
             out = []
             def rec(i, env2):
                 if i == len(e.generators):
@@ -603,6 +701,17 @@ class Interp:
             la = a.literal() if isinstance(a, AStr) else None
             if la is not None and isinstance(b, AList) and all(isinstance(x, AStr) and x.literal() is not None for x in b.items):
                 r = la in [x.literal() for x in b.items]
+                return r if isinstance(op, ast.In) else not r
+            if isinstance(b, (AList, tuple, list)):
+                # concrete shape values: Python equality element by element (an int is never equal to a str)
+                def cv(x):
+                    if isinstance(x, AInt) and x.v is not None: return ('i', x.v)
+                    if isinstance(x, AStr) and x.literal() is not None: return ('s', x.literal())
+                    if isinstance(x, bool) or x is None: return ('k', x)
+                    if isinstance(x, AObj): return ('o', id(x))
+                    raise Unknown(f"membership on abstract values at line {getattr(node, 'lineno', 0)}")
+                items = b.items if isinstance(b, AList) else list(b)
+                r = cv(a) in [cv(x) for x in items]
                 return r if isinstance(op, ast.In) else not r
             raise Unknown(f"membership on abstract values at line {getattr(node, 'lineno', 0)}")
         if isinstance(op, (ast.Is, ast.IsNot)) and (a is None or b is None) and isinstance(a if b is None else b, (AFloat, AInt, ALin)):
@@ -840,7 +949,23 @@ class Interp:
                 args.extend(v.items if isinstance(v, AList) else list(v))
             else:
                 args.append(self.expr(a, env))
-        kw = {k.arg: self.expr(k.value, env) for k in e.keywords}
+        kw = {}
+        for k in e.keywords:
+            v = self.expr(k.value, env)
+            if k.arg is None:
+                if isinstance(v, ADict) and all(isinstance(x, str) for x in v.items):
+                    kw.update(v.items)
+                else:
+                    raise Unknown(f"** of {type(v).__name__} at line {e.lineno}")
+            else:
+                kw[k.arg] = v
+        fv = None
+        if isinstance(f, ast.Name) and (f.id in env or (self.module is not None and f.id in self.module.funcs and f.id not in self.functions)):
+            fv = self.expr(f, env)
+        elif isinstance(f, (ast.Subscript, ast.Call, ast.IfExp)):
+            fv = self.expr(f, env)
+        if isinstance(fv, AFunc):
+            return self.call_function(fv.fn, args, kw, closure=fv.closure)
         if isinstance(f, ast.Name) and f.id in self.classes:
             cdef = self.classes[f.id]
             obj = AObj()
@@ -868,6 +993,12 @@ class Interp:
                 if isinstance(args[0], AList) and all(isinstance(x, AInt) and x.v is not None for x in args[0].items):
                     return AList(sorted(args[0].items, key=lambda x: x.v, reverse=rev))
                 raise Unknown(f"sorted() of {type(args[0]).__name__} at line {e.lineno}")
+            if n == 'vars' and len(args) == 1 and isinstance(args[0], AObj):
+                return ADictOf(args[0])
+            if n == 'isinstance' and len(args) == 2:
+                return self.isinstance_(args[0], args[1], e)
+            if n == 'str' and len(args) in (2, 3) and isinstance(args[0], (AOpaque, ABytes)):
+                return args[0] if isinstance(args[0], AOpaque) else AOpaque('decoded bytes')
             if n == 'str' and len(args) == 1 and not kw:
                 if isinstance(args[0], AStr):
                     return args[0]
@@ -931,7 +1062,7 @@ class Interp:
                     return ABytes(a.items)
                 raise Unknown(f"bytes() argument at line {e.lineno}")
             if n == 'bytearray':
-                return ABytes(args[0].items) if args else ABytes([])
+                return ABytes(args[0].items, True) if args else ABytes([], True)
             if n == 'int':
                 if len(args) == 1 and isinstance(args[0], AInt):
                     return args[0]
@@ -946,6 +1077,18 @@ class Interp:
                 if isinstance(x, (tuple, list, range)):
                     return AList(list(reversed(self.iterate(x, e))))
                 raise Unknown(f"reversed() of {type(x).__name__} at line {e.lineno}")
+            if n in ('set', 'frozenset'):
+                if not args:
+                    return AList([])
+                out_ = AList([])
+                for x in self.iterate(args[0], e):
+                    if not self.compare(ast.In(), x, out_, e):
+                        out_.items.append(x)
+                return out_
+            if n == 'dict' and not args and not kw:
+                return ADict({})
+            if n == 'bool' and len(args) == 1:
+                return self.truth(args[0], e)
             if n == 'list':
                 x = args[0] if args else AList()
                 if isinstance(x, AList):
@@ -1060,6 +1203,25 @@ class Interp:
                     o.items.extend(self.iterate(args[0], e)); return None
                 if m == 'reverse' and not args:
                     o.items.reverse(); return None
+                if m == 'remove' and len(args) == 1:
+                    for i_, x in enumerate(o.items):
+                        if self.compare(ast.Eq(), x, args[0], e) if not (isinstance(x, AObj) or isinstance(args[0], AObj)) else x is args[0]:
+                            del o.items[i_]
+                            return None
+                    raise PyError('ValueError', e.lineno)
+                if m == 'add' and len(args) == 1:
+                    if not self.compare(ast.In(), args[0], o, e):
+                        o.items.append(args[0])
+                    return None
+                if m == 'copy' and not args:
+                    return AList(o.items)
+                if m == 'clear' and not args:
+                    o.items.clear(); return None
+                if m == 'index' and len(args) == 1:
+                    for i_, x in enumerate(o.items):
+                        if self.compare(ast.Eq(), x, args[0], e):
+                            return AInt(i_)
+                    raise PyError('ValueError', e.lineno)
                 if m == 'insert' and len(args) == 2 and isinstance(args[0], AInt) and args[0].v is not None:
                     o.items.insert(args[0].v, args[1]); return None
                 if m == 'sort':
